@@ -24,8 +24,8 @@ typedef struct HState {
 } HState;
 
 int io_roundtrip_check (mpq_QSprob p, const RefLP * M, const char *fname, const char *fmt, char *why, size_t wl);   /* h_io.c */
-#define NSTART 10
-static const char *start_name[NSTART] = { "empty", "1x1", "testsuite3x2", "ranged2x2", "degenerate3x3", "infeasible2x2", "singleton3x3", "mip3x2-read", "slackrows2x2", "slackends3x2" };
+#define NSTART 11
+static const char *start_name[NSTART] = { "empty", "1x1", "testsuite3x2", "ranged2x2", "degenerate3x3", "infeasible2x2", "singleton3x3", "mip3x2-read", "slackrows2x2", "slackends3x2", "upperonly2x1" };
 
 static void Q (mpq_t q, const char *s) { q_set_str (q, s); }
 static void m_col (RefLP * M, const char *obj, const char *lo, const char *up, const char *name)
@@ -72,6 +72,13 @@ static RefLP *make_start (int s)
 		m_col (M, "1", "0", NULL, "x"); m_col (M, "0", "0", NULL, "y");
 		const char *r1[] = { "1", "1" };
 		m_row (M, 'L', "1", NULL, "c1", r1); m_row (M, 'G', "2", NULL, "c2", r1); return M;
+	}
+	case 10: {
+		/* the basic variable of the optimum has an upper bound only; zeroing its coefficient makes the kept basis singular */
+		M = ref_new (REF_MIN);
+		m_col (M, "-2", "0", "4", "x"); m_col (M, "-1", NULL, "2", "y");
+		const char *r1[] = { "1", "1" };
+		m_row (M, 'L', "5", NULL, "c1", r1); return M;
 	}
 	case 9: {
 		/* first and last row slack, middle row binding: deleting rows {last, first} in one call keeps the cached solution and must re-align it */
